@@ -64,7 +64,7 @@ func run(c *common.Ctx) error {
 		Rule: fmt.Sprintf("%d random histories on a fresh bbolt file each: stored commands (with deletions) before the session, "+
 			"histutil.NewHybridStore, session additions, concurrent additions straight to the database after session start, "+
 			"cursors with random prefixes with and without NewDedupCursor, random walks (runs of Prev, runs of Next, mixed) "+
-			"with additions in between; also the database-less memStore; non-trivial = tagged branch", nh),
+			"with additions in between; also the database-less memStore; sessions of 1030-2200 additions walked end to end; non-trivial = tagged branch", nh),
 		NewState: func(c *common.Ctx) any { st.reset(); return st },
 		Gen:      func(c *common.Ctx, emit func(...string)) { gen(c, emit, nh) },
 		Impl:     impl,
@@ -105,8 +105,49 @@ func randPrefix(r *common.Rand) string {
 	return common.Pick(r, texts)
 }
 
+// longSession: one session that adds far more commands than any bound a
+// store might put on what it keeps in memory, then walks all the way back and
+// all the way forward.
+func longSession(c *common.Ctx, emit func(...string), adds int, nilDB bool, dedup string) {
+	r := c.Rand
+	emit("reset")
+	stored := 0
+	if nilDB {
+		emit("session-nil")
+	} else {
+		for ; stored < 3; stored++ {
+			emit("store", common.Hex(fmt.Sprintf("echo stored %d", stored)))
+		}
+		emit("session")
+	}
+	for i := 0; i < adds; i++ {
+		t := fmt.Sprintf("echo session %d", i)
+		if r.Chance(1, 10) {
+			t = "ls"
+		}
+		emit("add", common.Hex(t), "-1")
+		if !nilDB && r.Chance(1, 200) {
+			emit("store", common.Hex(fmt.Sprintf("echo other %d", i)))
+		}
+	}
+	emit("cursor", common.Hex(common.Pick(r, []string{"", "echo ", "echo session 1"})), dedup)
+	for i := 0; i < adds+stored+3; i++ {
+		emit("prev")
+		if i%97 == 0 {
+			emit("get")
+		}
+	}
+	for i := 0; i < adds+stored+3; i++ {
+		emit("next")
+	}
+	emit("all")
+}
+
 func gen(c *common.Ctx, emit func(...string), nh int) {
 	r := c.Rand
+	for k := c.Scale(2, 12); k > 0; k-- {
+		longSession(c, emit, r.Range(1030, 2200), k%3 == 2, strconv.Itoa(k%2))
+	}
 	for h := 0; h < nh; h++ {
 		emit("reset")
 		nilDB := r.Chance(1, 12)
@@ -275,17 +316,17 @@ func impl(sta any, f []string) string {
 // commands stored when the session started followed by the session's own
 // additions; a cursor is an index into the matching ones, newest first.
 type ref struct {
-	db        []storedefs.Cmd // what the database holds (from the numbers it returned)
-	stored    []storedefs.Cmd // snapshot at session start
-	session   []storedefs.Cmd
-	started   bool
-	view      []storedefs.Cmd // of the current cursor
-	fromSess  []bool
-	idx       int
-	dedup     bool
-	skipped   bool // de-duplication removed something from this view
-	hidden    bool // a concurrent addition matches the prefix but must stay invisible
-	prefix    string
+	db         []storedefs.Cmd // what the database holds (from the numbers it returned)
+	stored     []storedefs.Cmd // snapshot at session start
+	session    []storedefs.Cmd
+	started    bool
+	view       []storedefs.Cmd // of the current cursor
+	fromSess   []bool
+	idx        int
+	dedup      bool
+	skipped    bool // de-duplication removed something from this view
+	hidden     bool // a concurrent addition matches the prefix but must stay invisible
+	prefix     string
 	concurrent []storedefs.Cmd
 }
 
